@@ -4,8 +4,14 @@ CONSTANTS
   MaxHist = 4
   DropTables = TRUE
   SaveAll = TRUE
+  ReadBlock = 0
+  SizeSet = {1, 2, 3}
+  Rewrites = FALSE
+  Shape = "all"
+  Reuse = "off"
 INVARIANT ReadsLast
 INVARIANT EmptyStaysEmpty
 INVARIANT SizesDiffer
+INVARIANT Canonical
 VIEW MCView
 CHECK_DEADLOCK FALSE
